@@ -537,8 +537,9 @@ impl FixtureDatabase {
             );
         }
 
-        // Check if this is a test function
-        let is_test = func_name.starts_with("test_");
+        // Check if this is a test function (a fixture named test_* is a fixture, not a
+        // test: its parameters were already recorded above)
+        let is_test = func_name.starts_with("test_") && fixture_decorator.is_none();
 
         if is_test {
             debug!("Found test function: {}", func_name);
